@@ -98,8 +98,16 @@ class Probe(SourceProxy):
             return Total(sel, close=self._make_emitter(sel))
 
     def _install_tooling(self):
-        for selector in self._selectors:
-            autotool(selector)
+        done = []
+        try:
+            for selector in self._selectors:
+                autotool(selector)
+                done.append(selector)
+        except BaseException:
+            # Refused: undo the tooling of the selectors before this one
+            for selector in reversed(done):
+                autotool(selector, undo=True)
+            raise
 
     def _uninstall_tooling(self):
         for selector in self._selectors:
